@@ -321,7 +321,7 @@ class Unilateral(
         for name, modality in self.get_all_modalities().items():
             if name in diagnosis:
                 mod_diagnosis = diagnosis[name]
-                for lnl in self.graph.lnls:
+                for lnl in self.graph.lnls.values():
                     try:
                         lnl_diagnosis = mod_diagnosis[lnl.name]
                     except KeyError:
